@@ -126,7 +126,77 @@ HarFailures(ev) ==
                 /\ { [url |-> x.exs[i].url, status |-> x.exs[i].status, body |-> x.exs[i].body, hs |-> x.exs[i].hs] : i \in 1..Len(x.exs) } = HarExpected(ev.entries)
              THEN {} ELSE {"bundle from HAR does not hold exactly the GET entries with banned / pseudo headers dropped"})
 
-Failures(ev) == CASE ev.kind = "dirbundle" -> DirFailures(ev) [] ev.kind = "ibcli" -> IbFailures(ev) [] ev.kind = "certcli" -> CertFailures(ev) [] ev.kind = "certpure" -> CertPureFailures(ev)
+\* URL list: the file's lines, trimmed; blank lines and lines starting with '#' skipped; a URL listed again skipped; one
+\* exchange per remaining line holding what the server answered for it (served: the final answer per URL)
+UlKept(listfile) ==
+  LET ls == SplitOn(listfile, 10)
+      t == [i \in 1..Len(ls) |-> TrimWS(ls[i])]
+  IN SelectSeq([i \in 1..Len(t) |-> IF t[i] # <<>> /\ t[i][1] # 35 /\ (\A j \in 1..(i - 1) : t[j] # t[i]) THEN t[i] ELSE <<>>], LAMBDA z : z # <<>>)
+UrlListExpected(listfile, served) ==
+  LET kept == UlKept(listfile) IN
+  { LET sv == served[CHOOSE k \in 1..Len(served) : served[k].url = kept[i]] IN
+    [url |-> kept[i], status |-> sv.status, body |-> sv.body, hs |-> { <<LowerB(sv.resph[k].n), JoinWith(sv.resph[k].vs, <<44>>)>> : k \in 1..Len(sv.resph) }] : i \in 1..Len(kept) }
+UrlListFailures(ev) ==
+  LET x == ExtractWith(ev.file, LAMBDA u : "ok") IN
+  IF ev.skipped THEN {} ELSE
+  (IF ev.gen_exit = 0 /\ ev.dump_exit = 0 THEN {} ELSE {"gen-bundle -URLList / dump-bundle failed"})
+  \cup (IF ev.gen_exit # 0 THEN {}
+        ELSE IF WellFormedBundle(ev.file, ev.ver) /\ x.res # "err" /\ Len(x.exs) = Len(UlKept(ev.listfile))
+                /\ { [url |-> x.exs[i].url, status |-> x.exs[i].status, body |-> x.exs[i].body, hs |-> x.exs[i].hs] : i \in 1..Len(x.exs) } = UrlListExpected(ev.listfile, ev.served)
+             THEN {} ELSE {"bundle from a URL list does not hold exactly one exchange per listed URL with the server's status, header fields and body"})
+
+\* OCSP over the network: the responder named in the leaf certificate is asked with the DER request as a POST body, or
+\* (RFC 5019) with GET <responder>/<url-escaped base64 of the SAME request> when -preferGET is given and that URL has at
+\* most 255 characters; the answer becomes the ocsp value.  ev.req = what the responder saw; ev.reqder = the request the
+\* POST form of the same invocation carried (the harness runs both forms)
+IsAlnum(c) == IsAlpha(c) \/ IsDigit(c)
+HexDigitU(n) == IF n < 10 THEN 48 + n ELSE 55 + n
+S_POST == <<80,79,83,84>>
+S_ocspreq == <<97,112,112,108,105,99,97,116,105,111,110,47,111,99,115,112,45,114,101,113,117,101,115,116>>   \* application/ocsp-request
+PctEsc(c) == IF IsAlnum(c) \/ c \in {45, 46, 95, 126} THEN <<c>> ELSE <<37, HexDigitU(c \div 16), HexDigitU(c % 16)>>
+QueryEscape(s) == Concat([i \in 1..Len(s) |-> PctEsc(s[i])])
+OcspGetUrl(responder, der) == responder \o <<47>> \o QueryEscape(B64Enc(der, FALSE, TRUE))
+OcspFetchFailures(ev) ==
+  LET chain == [i \in 1..Len(ev.certs) |-> [cert |-> ev.certs[i], hasocsp |-> i = 1, ocsp |-> IF i = 1 THEN ev.answer ELSE <<>>, hassct |-> FALSE, sct |-> <<>>]]
+      useget == ev.preferget /\ Len(OcspGetUrl(ev.responder, ev.reqder)) <= 255
+  IN IF ev.skipped THEN {} ELSE
+  (IF ev.gen_exit = 0 /\ ev.out = ChainBytes(chain) THEN {} ELSE {"gen-certurl output is not the chain with the responder's answer as ocsp value"})
+  \cup (IF ev.dump_exit = 0 THEN {} ELSE {"dump-certurl rejects gen-certurl's output"})
+  \cup (IF Len(ev.reqs) = 1 THEN {} ELSE {"the responder was not asked exactly once"})
+  \cup (IF Len(ev.reqs) # 1 THEN {}
+        ELSE IF useget THEN (IF ev.reqs[1].method = S_GET /\ ev.responderbase \o ev.reqs[1].path = OcspGetUrl(ev.responder, ev.reqder) THEN {}
+                             ELSE {"-preferGET: the request is not GET <responder>/<escaped base64 of the DER request>"})
+        ELSE (IF ev.reqs[1].method = S_POST /\ ev.responderbase \o ev.reqs[1].path = ev.responder /\ ev.reqs[1].body = ev.reqder /\ ev.reqs[1].ctype = S_ocspreq THEN {}
+              ELSE {"the request is not a POST of the DER request (application/ocsp-request) to the responder"}))
+
+\* dump-signedexchange's views: functions of the file
+ValidLine == <<84,104,101,32,101,120,99,104,97,110,103,101,32,104,97,115,32,97,32,118,97,108,105,100,32,115,105,103,110,97,116,117,114,101,46>>
+PayloadBanner(n) == <<112,97,121,108,111,97,100,32,91>> \o DecDigits(n) \o <<32,98,121,116,101,115,93,58,10>>      \* "payload [n bytes]:\n"
+SxgViewFailures(ev) ==
+  LET rr == RefRead(ev.file)
+      a == Accept(rr.x, ev.t, ev.leaf) IN
+  (IF ev.gen_exit = 0 /\ rr.res = "ok" THEN {} ELSE {"gen-signedexchange failed"})
+  \cup (IF ev.gen_exit # 0 \/ rr.res # "ok" THEN {}
+        ELSE IF ev.dump_exit # 0 THEN {"dump-signedexchange failed on gen-signedexchange's output"}
+        ELSE IF ev.view = "headerIntegrity" THEN (IF ev.stdout = HeaderIntegrity(rr.x) \o <<10>> THEN {} ELSE {"-headerIntegrity does not print sha256-<base64 of the SHA-256 of the header CBOR>"})
+        ELSE IF ev.view = "signature" THEN (IF ev.stdout = rr.x.sighdr \o <<10>> THEN {} ELSE {"-signature does not print the Signature header value"})
+        \* "payload [<n> bytes]:" and then the n bytes of the VERIFIED (decoded) payload
+        ELSE IF ev.view = "payloadonly" THEN (IF a.ok /\ ev.stdout = <<10>> \o ValidLine \o <<10>> \o PayloadBanner(Len(a.payload)) \o a.payload THEN {} ELSE {"-verify -headers=false does not print the verdict and the verified payload"})
+        ELSE (IF ev.json.ok /\ ev.json.valid = a.ok /\ ev.json.integrity = HeaderIntegrity(rr.x) /\ ev.json.uri = rr.x.uri /\ ev.json.status = rr.x.status
+                 /\ ~ev.json.haspayload THEN {}
+              ELSE {"-json does not report the verdict / header integrity / request URL / status of the exchange"}))
+
+\* the chain fetched from the exchange's own cert-url: valid iff the server has the right chain there
+SxgFetchFailures(ev) ==
+  LET rr == RefRead(ev.file) IN
+  IF ev.skipped THEN {} ELSE
+  (IF ev.gen_exit = 0 /\ rr.res = "ok" /\ Accept(rr.x, ev.t, ev.leaf).ok THEN {} ELSE {"gen-signedexchange did not write an exchange that verifies per the specification"})
+  \cup (IF ev.gen_exit # 0 THEN {}
+        ELSE IF ev.certfetch = "served" THEN (IF ev.dump_exit = 0 /\ ev.valid /\ ev.fetched = 1 THEN {} ELSE {"dump-signedexchange -verify does not verify with the chain fetched from cert-url"})
+        ELSE (IF ev.dump_exit # 0 /\ ~ev.valid THEN {} ELSE {"dump-signedexchange -verify reports a valid signature although cert-url serves no / another chain"}))
+
+Failures(ev) == CASE ev.kind = "urllist" -> UrlListFailures(ev) [] ev.kind = "ocspfetch" -> OcspFetchFailures(ev) [] ev.kind = "sxgview" -> SxgViewFailures(ev) [] ev.kind = "sxgfetch" -> SxgFetchFailures(ev)
+                  [] ev.kind = "dirbundle" -> DirFailures(ev) [] ev.kind = "ibcli" -> IbFailures(ev) [] ev.kind = "certcli" -> CertFailures(ev) [] ev.kind = "certpure" -> CertPureFailures(ev)
                   [] ev.kind = "sxgcli" -> SxgFailures(ev) [] ev.kind = "sxgflags" -> SxgFlagFailures(ev) [] ev.kind = "sxgdefaults" -> SxgDefaultFailures(ev) [] ev.kind = "harcli" -> HarFailures(ev)
 TraceInit == l = 1
 TraceNext ==
